@@ -47,7 +47,15 @@ def _work(job):
                              max_exec=job["max_exec"], stateless=job.get("stateless", False))
         r["error"] = None
     except explorer.UnsoundMerge as e:
-        r = dict(error="UNSOUND-MERGE " + str(e)[:300])
+        # the canonical state does not determine the future on this tree (e.g. a change gave
+        # meaning to something the abstraction drops): explore this job without any merging
+        try:
+            r = explorer.explore(job["scen"], job["cfg"], budget=job["budget"],
+                                 max_exec=job["max_exec"], stateless=True)
+            r["error"] = None
+            r["stateless_fallback"] = str(e)[:200]
+        except Exception as e2:  # noqa: BLE001
+            r = dict(error="UNSOUND-MERGE " + str(e)[:200] + " / fallback failed: " + repr(e2)[:200])
     except explorer.Divergence as e:
         r = dict(error="DIVERGENCE " + str(e)[:300])
     except Exception as e:  # noqa: BLE001
@@ -207,6 +215,8 @@ def check(prop, tier):
             tot[f"complete_d{job['budget']}"] += 1
         if r["nviews"] > 1:
             tot["jobs_with_several_views"] += 1
+        if r.get("stateless_fallback"):
+            tot["stateless_fallbacks"] += 1
         for k, n in r["outcomes"].items():
             outcomes[k.split(":")[0] if k.startswith("exc") is False else ":".join(k.split(":")[:2])] += n
         for v in r["viols"]:
@@ -237,6 +247,7 @@ def check(prop, tier):
         capped_jobs=capped[:40], n_capped=len(capped),
         outcomes=dict(outcomes), executions_with_any_violation=tot["viol_execs"],
         jobs_with_several_views=tot["jobs_with_several_views"],
+        jobs_explored_without_merging_after_a_failed_merge_validation=tot["stateless_fallbacks"],
         known_findings_hit={k: v[1] for k, v in rep.known_hits.items()},
         family=fam_info,
         explanation="no abstract model: every transition is an execution of the code in the "
